@@ -74,6 +74,74 @@ stays_near!(near_surface, true);
 // (cutting these two into eight pieces each - parity x hemisphere x side of the reference longitude - does not make the
 // pieces cheaper: one piece took 1081 s; the cost is in the formula, not in the size of the input space)
 
+// quick-tier instance of the stays-near clause: the reference latitude within 5 degrees of the equator (one NL band: the
+// decoded latitude stays within 8 degrees, NL = 59), every reference longitude, every count pair, both parities.  The
+// clause over ALL references is near_airborne / near_surface (18-20 min each, thorough tier).
+macro_rules! stays_near_eq {
+    ($name:ident, $surface:expr) => {
+        harness! {
+            #[kani::unwind(60)]
+            #[kani::stub(alloc::fmt::format, crate::stubs::fmt_stub)]
+            fn $name(s) {
+                let odd = s.bool();
+                let yz = s.u32();
+                let xz = s.u32();
+                let lr = s.f64();
+                let gr = s.f64();
+                vassume!(yz < 131072 && xz < 131072 && lr >= -5.0 && lr <= 5.0 && gr.is_finite());
+                let r = decode($surface, odd, yz, xz, lr, gr);
+                vcover!(r.is_some());
+                if let Some(p) = r {
+                    let span = if $surface { 90.0 } else { 360.0 };
+                    let d_lat = if odd { span / 59.0 } else { span / 60.0 };
+                    let d_lon = if odd { span / 58.0 } else { span / 59.0 };
+                    vassert!(p.latitude.is_finite() && p.longitude.is_finite(), "finite position");
+                    vassert!(absf(p.latitude - lr) <= d_lat / 2.0 + 1e-9, "latitude within half a zone of the reference");
+                    vassert!(absf(p.longitude - gr) <= d_lon / 2.0 + 1e-9, "longitude within half a zone of the reference");
+                }
+            }
+        }
+    };
+}
+stays_near_eq!(near_air_equator, false);
+stays_near_eq!(near_surf_equator, true);
+
+// further latitude bands of the same clause, with the oracle's NL for the zone width (as in near_airborne)
+macro_rules! stays_near_band {
+    ($name:ident, $surface:expr, $lo:expr, $hi:expr) => {
+        harness! {
+            #[kani::unwind(60)]
+            #[kani::stub(alloc::fmt::format, crate::stubs::fmt_stub)]
+            fn $name(s) {
+                let odd = s.bool();
+                let yz = s.u32();
+                let xz = s.u32();
+                let lr = s.f64();
+                let gr = s.f64();
+                vassume!(yz < 131072 && xz < 131072 && lr >= $lo && lr <= $hi && gr.is_finite());
+                let r = decode($surface, odd, yz, xz, lr, gr);
+                vcover!(r.is_some());
+                if let Some(p) = r {
+                    let span = if $surface { 90.0 } else { 360.0 };
+                    let d_lat = if odd { span / 59.0 } else { span / 60.0 };
+                    vassert!(p.latitude >= -90.0 && p.latitude <= 90.0, "latitude in [-90, 90]");
+                    vassert!(p.latitude.is_finite() && p.longitude.is_finite(), "finite position");
+                    vassert!(absf(p.latitude - lr) <= d_lat / 2.0 + 1e-9, "latitude within half a zone of the reference");
+                    let mut n = nl_ref(p.latitude) - if odd { 1 } else { 0 };
+                    if nl_borderline(p.latitude) { n -= 1; }
+                    let d_lon = if n > 0 { span / n as f64 } else { span };
+                    vassert!(absf(p.longitude - gr) <= d_lon / 2.0 + 1e-9, "longitude within half a zone of the reference");
+                }
+            }
+        }
+    };
+}
+stays_near_band!(near_air_mid_n, false, 44.0, 46.0);
+stays_near_band!(near_air_mid_s, false, -46.0, -44.0);
+stays_near_band!(near_air_polar, false, 86.0, 90.0);
+stays_near_band!(near_surf_mid_n, true, 44.0, 46.0);
+stays_near_band!(near_surf_polar_s, true, -90.0, -86.0);
+
 macro_rules! lat_exact {
     ($name:ident, $surface:expr, $odd:expr) => { lat_exact!($name, $surface, $odd, -1000, 1000); };
     ($name:ident, $surface:expr, $odd:expr, $zlo:expr, $zhi:expr) => {
@@ -159,6 +227,13 @@ include!("gen/c05_lon.rs");
 pub const BASE: &[(&str, fn(&mut crate::src::Tape))] = &[
     (concat!(module_path!(), "::near_airborne"), near_airborne::replay),
     (concat!(module_path!(), "::near_surface"), near_surface::replay),
+    (concat!(module_path!(), "::near_air_equator"), near_air_equator::replay),
+    (concat!(module_path!(), "::near_surf_equator"), near_surf_equator::replay),
+    (concat!(module_path!(), "::near_air_mid_n"), near_air_mid_n::replay),
+    (concat!(module_path!(), "::near_air_mid_s"), near_air_mid_s::replay),
+    (concat!(module_path!(), "::near_air_polar"), near_air_polar::replay),
+    (concat!(module_path!(), "::near_surf_mid_n"), near_surf_mid_n::replay),
+    (concat!(module_path!(), "::near_surf_polar_s"), near_surf_polar_s::replay),
     (concat!(module_path!(), "::lat_air_even"), lat_air_even::replay),
     (concat!(module_path!(), "::lat_air_odd"), lat_air_odd::replay),
     (concat!(module_path!(), "::lat_surf_even"), lat_surf_even::replay),
